@@ -17,9 +17,9 @@ def run(res, tier):
     ]
     conc.concurrent_check(
         res, 'C01', tier, 'c01.cpp', 'unique', RULES,
-        quick_args=['--mode', 'dfs', '--pb', '2', '--wb', '0'],
-        thorough_args=['--mode', 'dfs', '--pb', '5', '--wb', '0', '--max-exec', '2000000', '--big'],
-        search_args=[['--mode', 'dfs', '--pb', '3', '--wb', '0', '--max-exec', '300000'],
+        quick_args=['--mode', 'dfs', '--pb', '2', '--wb', '1'],
+        thorough_args=['--mode', 'dfs', '--pb', '5', '--wb', '1', '--max-exec', '2000000', '--big'],
+        search_args=[['--mode', 'dfs', '--pb', '3', '--wb', '2', '--max-exec', '300000'],
                      ['--mode', 'random', '--random-runs', '3000']],
         unmodelled_ok=STALE)
 
